@@ -89,6 +89,13 @@ def probe():
             facts["unknownBuiltinRaises"] = True
             facts["unknown_result"] = f"{type(ex).__name__}: {ex}"
         facts["helperKeysNormalise"], facts["helper_probe"] = probe_helper_keys()
+        # wave 5: how a signed numeric literal (one IR node) is printed, alone and in base position of `^`
+        try:
+            facts["negLit"] = pyfrag.lex(str(G.parseExpression(-2.0)))
+            facts["negLitPow"] = pyfrag.lex(str(G.parseExpression({"type": "operator", "name": "^", "args": [-2.0, 2.0]})))
+        except Exception as ex:
+            facts["problems"].append(("negLit", f"{type(ex).__name__}: {str(ex)[:100]}"))
+            facts["negLit"] = facts["negLitPow"] = ["IUNSUPPORTED_TEXT"]
     finally:
         logging.disable(logging.NOTSET)
     return facts
@@ -1078,6 +1085,20 @@ def run(chk):
         if not facts["helperKeysNormalise"]:
             ob += ("theorem violated_helper_keys : ¬ C03_full cfg xmilePrec := C03_witness_helper_keys cfg xmilePrec (by decide)\n"
                    "#print axioms violated_helper_keys\n")
+    # wave 5: the literal-sign fact on the probed generator: a signed literal is printed flat (`-2.0`), so `^(-2, 2)` is emitted as
+    # `-2.0 ** 2.0`, which reads -(2 ** 2) like the XMILE source `-2 ^ 2` (theorem signed_base_pow); `(-2.0)` would not
+    lit_flat = facts["negLit"] == ["O-", "N2.0"] and facts["negLitPow"] == ["O-", "N2.0", "O**", "N2.0"]
+    chk.notes["probe"]["negLit"] = " ".join(facts["negLit"]); chk.notes["probe"]["negLitPow"] = " ".join(facts["negLitPow"])
+    litdefs = f"def negLit : List Tok := {lean_toks(facts['negLit'])}\ndef negLitPow : List Tok := {lean_toks(facts['negLitPow'])}\n"
+    if lit_flat:
+        ob += (litdefs + "theorem neg_literal_flat : negLit = gen cfg false (.nnum \"2.0\") ∧ negLitPow = gen cfg false (.bin .pow (.nnum \"2.0\") (.num \"2.0\")) ∧\n"
+               "    (parse negLitPow).map sexp = some \"(neg (** (num 2.0) (num 2.0)))\" := by decide +kernel\n#print axioms neg_literal_flat\n")
+        if good:
+            ob += ("theorem ops_ok : opOK cfg xmilePrec = true := by decide +kernel\n"
+                   "example := signed_base_pow cfg ops_ok \"2.0\" \"2.0\" false\n")
+    else:
+        ob += (litdefs + "theorem neg_literal_not_flat : ¬ (negLit = gen cfg false (.nnum \"2.0\") ∧ negLitPow = gen cfg false (.bin .pow (.nnum \"2.0\") (.num \"2.0\"))) := by decide +kernel\n"
+               "#print axioms neg_literal_not_flat\n#print axioms signed_base_pow_paren_wrong\n")
     gen = ("import Bptk.Props.C03\nimport Bptk.Gen.C03Cfg\n/-! GENERATED on every run. -/\nnamespace Bptk.C03.Gen\nopen Bptk.Py Bptk.C03\n"
            + ob + "end Bptk.C03.Gen\n")
     ok, why = chk.prove(gen, extra_sources=["Bptk/Gen/C03Cfg.lean", "Bptk/Proofs/PyFrag.lean", "Bptk/Proofs/PySound.lean", "Bptk/Proofs/PyDet.lean",
@@ -1271,6 +1292,9 @@ def run(chk):
     if not good and ref_fail is None and loud_fail is None and delay_fail is None:
         chk.add_finding("obligation", f"configuration not good ({bad or missing or 'unknown builtin does not raise'}) and no failing equation found",
                         {"theorem": "Bptk.C03.Gen.cfg_good", "not_ok": bad, "missing": missing, "witnesses": witnesses}, found_input=False)
+    if not lit_flat and ref_fail is None and loud_fail is None and not delay_fail:
+        chk.add_finding("obligation", f"a signed literal is no longer printed flat ({chk.notes['probe']['negLit']!r}; ^(-2, 2) -> {chk.notes['probe']['negLitPow']!r}) and no failing equation found",
+                        {"theorem": "Bptk.C03.Gen.neg_literal_not_flat"}, found_input=False)
     if not ok:
         chk.add_finding("obligation", f"proof obligations of C03 no longer check: {why}", {"theorem": "Bptk.C03.Gen.*", "detail": why}, found_input=False)
     if corr is not None and ref_fail is None and loud_fail is None:
